@@ -235,11 +235,20 @@ class _MatEval:
 def _final_else(stmts):
     """the statements of the general case: what is left after every special-case `if` of the block (if/elif/else chains and
     early-exit ifs alike); an `if twist:` selects the output form and is not a special case"""
+    from ..astutil import ends_in_raise
+
+    def exits(body):
+        return bool(body) and (isinstance(body[-1], (ast.Return, ast.Raise)) or ends_in_raise(body) or
+                               (isinstance(body[-1], ast.If) and body[-1].orelse and exits(body[-1].body) and exits(body[-1].orelse)))
     for _ in range(8):
         nxt = None
         for st in stmts:
             if isinstance(st, ast.If) and not (isinstance(st.test, ast.Name) and st.test.id == 'twist'):
                 arms, els = if_chain(st)
+                # a special case is an arm that LEAVES the function; an if/else that only selects a value (skw / st when st > 0)
+                # belongs to the general case itself
+                if not all(exits(b) for (_t, b) in arms):
+                    continue
                 nxt = els
                 break
         if not nxt:
@@ -781,19 +790,34 @@ def eval_guard2(t, S, val, nones, flags, shape):
     return None
 
 
-def _explore(fi, stmts, S, val, nones, flags, shape, out, depth=0):
-    """collect outcomes ('store'|'raise'|'fault', node); returns True when control can fall through the statement list"""
-    for st in stmts:
+def _explore(fi, stmts, S, val, nones, flags, shape, out, depth=0, env=None):
+    """collect outcomes ('store'|'raise'|'fault', node[, names the stored value is computed from on THIS path]); returns True when
+    control can fall through the statement list.  Paths are explored one by one (the statements after an `if` are explored in the
+    context of each feasible arm), so a local assigned in the arms and stored after them is resolved per path."""
+    env = dict(env or {})
+
+    def used(e):
+        names = {x.id for x in ast.walk(e) if isinstance(x, ast.Name) and isinstance(x.ctx, ast.Load)}
+        out_ = set()
+        for nm_ in names:
+            out_ |= env.get(nm_, {nm_})
+        return out_
+    for i, st in enumerate(stmts):
         if isinstance(st, ast.If):
             v = eval_guard2(canon(fi, st.test, inline=False), S, val, nones, flags, shape)
             if v == FAULT:
                 out.append(('fault', st))
                 return False
+            rest = list(stmts[i + 1:])
+            if depth > 14:
+                rest_now, rest = [], rest       # give up on path splitting: explore the arms, then the rest once
             ft = []
             if v is not False:
-                ft.append(_explore(fi, st.body, S, val, nones, flags, shape, out, depth + 1))
+                ft.append(_explore(fi, list(st.body) + (rest if depth <= 14 else []), S, val, nones, flags, shape, out, depth + 1, env))
             if v is not True:
-                ft.append(_explore(fi, st.orelse, S, val, nones, flags, shape, out, depth + 1) if st.orelse else True)
+                ft.append(_explore(fi, list(st.orelse or []) + (rest if depth <= 14 else []), S, val, nones, flags, shape, out, depth + 1, env))
+            if depth <= 14:
+                return any(ft)
             if not any(ft):
                 return False
             continue
@@ -801,10 +825,13 @@ def _explore(fi, stmts, S, val, nones, flags, shape, out, depth=0):
             out.append(('raise', st))
             return False
         if isinstance(st, ast.Return):
-            out.append(('store', st))
+            out.append(('store', st, used(st.value) if st.value is not None else set()))
             return False
         if isinstance(st, ast.Assign) and any(isinstance(t, ast.Attribute) and t.attr == 'data' for t in st.targets):
-            out.append(('store', st))
+            out.append(('store', st, used(st.value)))
+            continue
+        if isinstance(st, ast.Assign) and len(st.targets) == 1 and isinstance(st.targets[0], ast.Name):
+            env[st.targets[0].id] = used(st.value)
             continue
         if isinstance(st, ast.Assert):
             v = eval_guard2(canon(fi, st.test, inline=False), S, val, nones, flags, shape)
@@ -863,18 +890,20 @@ def check_ctor_forms(run, rule='R21'):
             stores = [x for x in out if x[0] == 'store']
             # a value stored for this form must not be computed from a parameter that is None in this form
             from_none = []
-            for (_, st_) in stores:
+            for rec_ in stores:
+                st_ = rec_[1]
                 if isinstance(st_, ast.Assign):
-                    used = {x.id for x in ast.walk(st_.value) if isinstance(x, ast.Name) and isinstance(x.ctx, ast.Load)}
+                    used = rec_[2] if len(rec_) > 2 else {x.id for x in ast.walk(st_.value) if isinstance(x, ast.Name) and isinstance(x.ctx, ast.Load)}
                     bad_ = sorted(used & nones)
                     if bad_:
                         from_none.append((st_, bad_))
             # ... and uses every parameter that IS given in this form
             unused = []
             if given and stores and not from_none:
-                for (_, st_) in stores:
+                for rec_ in stores:
+                    st_ = rec_[1]
                     if isinstance(st_, ast.Assign):
-                        used = {x.id for x in ast.walk(st_.value) if isinstance(x, ast.Name) and isinstance(x.ctx, ast.Load)}
+                        used = rec_[2] if len(rec_) > 2 else {x.id for x in ast.walk(st_.value) if isinstance(x, ast.Name) and isinstance(x.ctx, ast.Load)}
                         miss = sorted((given | {S}) - used)
                         if miss:
                             unused.append((st_, miss))
